@@ -23,7 +23,7 @@ RemoveFabric: from the success edge of Fabrics::remove every path reaches Fabric
 only the load I/O error propagates.
 """
 CLAUSES = ['a: key layout', 'b: store/load/remove agreement per key', 'c: start-up and factory-reset handle the same components', 'd: storage errors never dropped; removal persisted before acknowledging',
-           'e: soft-fail load of the optional cache', 'f: every cluster handler that mutates a fabric persists it']
+           'e: soft-fail load of the optional cache', 'f: every cluster handler that mutates a fabric persists it', 'g: the subscription mirror writes or clears every slot key']
 NOT_DECIDED = ['round-trip equality of each persisted structure', 'behaviour at each crash prefix of a multi-write history', 'atomicity of the example file-backed store']
 MIN_OBLIGATIONS = {'q': 60, 'd': 45, 'r': 45}
 
@@ -212,6 +212,26 @@ def check(R):
     # ---- f --------------------------------------------------------------------
     with R.clause('f'):
         fabric_mutators_persist(R)
+
+    # ---- g --------------------------------------------------------------------
+    if 'persistent-subscriptions' in (F.hdr.get('features') or ''):
+      with R.clause('g'):
+        # the persisted subscription table is a dense mirror (slot i = i-th live subscription): on every pass each slot key is either
+        # written or cleared - a record that is skipped (too large) must not leave the previous occupant's record behind
+        pa = closure_in(R, 'im::subscriptions::Subscriptions::persist_all', ['KvBlobStore::store'])
+        ser = [t for t in pa.calls('tlv::traits::ToTLV::to_tlv') if True]
+        R.floor('record serialisation in persist_all', len(ser), 1)
+        wr = call_bbs(pa, 'persist::KvBlobStore::store') + [t.bb for t in pa.calls('persist::KvBlobStore::remove')]
+        nx = [t.bb for t in pa.calls('core::iter::traits::iterator::Iterator::next')]
+        R.floor('loop over the live table in persist_all', len(nx), 1)
+        fail = prims.track_result(F, pa, ser[0]).failure
+        bad = []
+        for (frm, to) in sorted(fail):
+            r = prims.reach(pa, (to,), cut_blocks=set(wr))
+            if set(nx) & r or set(pa.ret_blocks()) & r:
+                bad.append(pa.where(frm))
+        R.expect('P3', pa.fn, 'a subscription record that is skipped still has its slot key cleared before the next slot', bool(fail) and not bad, 'to_tlv is_err -> KvBlobStore::remove(key) -> continue',
+                 f'from {bad} the loop moves on without store() or remove() of the slot key: the record of a subscription that ended stays on flash and comes back after a restart', bad[0] if bad else '')
 
 
 def fabric_mutators_persist(R):
